@@ -37,6 +37,18 @@ CLAIMED = {
             "TLC enumerates every delegation graph within the bounds (incl. terminating flags, the loadable cycle through a rule named like the primary file, and duplicate-name diamonds refused at load) and proves the coded grouped work-queue consults exactly the documented set, each rule once, and halts within the step bound; graphs are materialised as real v01/v02 rule files with git:/file: patterns, FindVerifiersForPath is called for a covering set of paths, and TLC compares names, thresholds and principals of the returned verifiers with the documented walk.",
             "Bounds: at most 3 files and 3 rules in total exhaustively; pattern semantics limited to literal / prefix-glob / catch-all (table checked against fnmatch).",
             "DESIGN.md section 4 C06"),
+    "C01": ("Verify.tla, MC_Verify.tla (families core/recovery/global/nopolicy), Trace_Verify.tla",
+            "TLC enumerates every log up to the family bounds (policy updates, pushes by authorised / de-authorised / unknown / no key, approvals bound to a change, skip annotations, propagation and staging entries, force pushes, global rules) and proves that the coded entry-queue workflow without deviations returns exactly the documented verdict (every unrevoked entry authorised by the policy state immediately preceding it, repaired violations need an authorised fix); sampled logs are concretised into real repositories (signed metadata, SSH-signed entries and commits, real attestations), VerifyRefFull runs, and TLC judges verdict and tip; accepted-but-unauthorised histories are attributed to listed deviations or reported.",
+            "Principals hold one key each; policy chains are valid (C02); two references, thresholds 1..2, one delegation level in the model's policy table; replay is on the in-memory store.",
+            "DESIGN.md section 4 C01"),
+    "C07": ("Verify.tla (recovery sub-machine), MC_Verify.tla (recovery/core), Trace_Verify.tla (Prop=C07)",
+            "TLC enumerates logs in which entries are independently valid or violating, skipped by annotations placed anywhere later (one annotation possibly covering two entries), tree-same or not to the last good state, interleaved with policy and attestation entries, and proves the coded recovery loop (as built: fix not re-verified) tolerates exactly the violations that are revoked and repaired as documented; sampled logs are replayed against VerifyRefFull and judged by TLC.",
+            "Same concretisation limits as C01.",
+            "DESIGN.md section 4 C07"),
+    "C11": ("Verify.tla (global-rule stage), MC_Verify.tla (family global, C11Mono), Trace_Verify.tla (Prop=C11)",
+            "TLC checks over every log of the global family that global rules are enforced (threshold over all principals, block-force-push against the previous unskipped state, also where no delegation rule protects the reference) and that stripping the global rules from every policy never turns an accepted history into a rejected one; sampled histories are replayed on twin repositories (with and without the global rules) and TLC judges both verdicts.",
+            "Controller-declared global rules are not concretised (own root only).",
+            "DESIGN.md section 4 C11"),
 }
 
 NOT_YET = {
